@@ -44,6 +44,7 @@ FIND_KERNEL3D = "C03-cnn-change-kernel-tuple-kwargs"
 FIND_STALE = "C03-nested-methods-stale-after-recreate"
 FIND_LAYER = "C03-encoder-layer-mutations-reenabled"
 FIND_CK_DEAD = "C03-encoder-change-kernel-dead"
+FIND_DUELING = "C03-dueling-head-init-dict"
 
 NODE_CHOICES = {"mlp": [16, 32, 64], "lstm": [16, 32, 64], "simba": [16, 32, 64],
                 "cnn": [8, 16, 32], "resnet": [8, 16, 32], "latent": [8, 16, 32]}
@@ -847,13 +848,16 @@ def explore(chk: Check, suite: str, spec: dict, policy: dict, depth_full: int, d
     nid = 0
     failing: list = []
     ncases = 0
+    complete_depth = 0
     for depth in range(1, depth_graph + 1):
         nxt = []
+        truncated = False
         for pid in frontier:
             parent = nodes[pid]
             acts = actions_for(spec, parent["m"], small)
             for act in acts:
                 if nid >= max_nodes:
+                    truncated = True
                     break
                 st = dict(act, seed=chk.rng.randrange(1 << 30), clone=True)
                 try:
@@ -882,9 +886,18 @@ def explore(chk: Check, suite: str, spec: dict, policy: dict, depth_full: int, d
                 seen.add(s)
         for pid in frontier:
             nodes[pid]["m"] = None if pid else nodes[pid]["m"]
+        if not truncated and not failing:
+            complete_depth = depth
         frontier = nxt
         if not frontier:
             break
+    closed = not frontier and not truncated
+    chk.dist[f"complete-to-depth-{min(complete_depth, depth_full)}"] += 1
+    if closed:
+        chk.dist["state-graph-closed"] += 1
+    chk.notes.append(f"explore {spec['id']}: every sequence up to depth {min(complete_depth, depth_full)}"
+                     + (f", reachable state graph closed ({len(seen)} states)" if closed else
+                        f", {len(seen)} states seen (graph search cut at depth {depth_graph} / {max_nodes} nodes)"))
     out = chk.driver.run(lines)
     chk.corr["model_lines"] += len(lines)
     if any(o == "bad-op" for o in out[:n0]):
@@ -1118,6 +1131,14 @@ def probe_policy(chk: Check) -> tuple[dict, set]:
         finding(FIND_CK_DEAD, "encoder.change_kernel on a network whose CNN encoder has one layer falls back on "
                 "add_layer, which is disabled for encoders: nothing changes and last_mutation_attr=None", spec,
                 [{"method": "encoder.change_kernel", "draw": "lo", "seed": 1, "clone": False}])
+    # the Rainbow head must be rebuildable from its own constructor description
+    spec = by_id["rainbow-vec-small"]
+    h = build(spec).head_net
+    bad = rebuild_check(h)
+    if bad:
+        finding(FIND_DUELING, "DuelingDistributionalMLP.init_dict reports num_outputs = num_atoms instead of the "
+                f"number of actions, so type(head)(**head.init_dict) / head.clone() build another architecture: {bad[0]}",
+                spec, [], call="head_rebuild")
     # explicit kernel arguments of change_kernel
     spec = {"id": "cnn-probe", "kind": "cnn", "cfg": dict(input_shape=[2, 16, 16], num_outputs=3,
                                                           **small_cnn_cfg(ch=(2, 2), k=(3, 3), s=(1, 1)))}
@@ -1166,15 +1187,19 @@ def probe_policy(chk: Check) -> tuple[dict, set]:
 # ----------------------------------------------------------------------------- check
 def run(chk: Check) -> None:
     quick = chk.tier == "quick"
-    chk.rule = ("for every subject (11 small-bound building blocks incl. CNN 2d/3d and multi-input over dict/tuple/"
-                "sequence spaces, 11 small-bound networks, 16 default-bound subjects): every sequence of advertised "
-                "methods x argument choices (no arguments with numpy draws at the low / high end of their range; "
-                "explicit hidden_layer in {0,1,7}, sizes in {1,2}, kernels in {1,2,3}) up to depth 2 (quick) / 3 "
-                "(thorough), each step on a clone() of a real object, then the closure of the reachable architecture "
-                "graph; plus seeded walks (length 12 quick / 50 thorough) with names from sample_mutation_method, with "
-                "and without clone between steps and with a twin network receiving the returned kwargs.  "
-                "distinct = distinct (subject, chain); non-trivial = a fallback fired, a bound stopped the change, "
-                "or the chain has more than one step")
+    chk.rule = ("subjects: 11 small-bound building blocks (MLP, noisy MLP, CNN 2d, 2d+BatchNorm, 3d, LSTM, SimBa, ResNet, "
+                "multi-input over dict / tuple / dict-with-sequence spaces), 11 small-bound networks (Q, Rainbow, "
+                "continuous Q, value, deterministic and stochastic actor over vector, image, sequence, dict, tuple "
+                "observations; MLP, CNN, LSTM, SimBa, ResNet, multi-input encoders), 16 default-bound subjects.  "
+                "Exploration: every sequence of advertised methods x argument choices (no arguments with the numpy "
+                "draws at the low / high end of their range; explicit hidden_layer in {0,1,7}, sizes in {1,2}, "
+                "kernels in {1,2,3}) up to the depth stated per subject in notes (quick: 2 for blocks, 1 for "
+                "composites; thorough: 3 for blocks, 2 for composites, node caps apply), each step on a clone() of "
+                "a real object, then breadth-first over the reachable architecture graph (states identified by "
+                "constructor description).  Walks: length 12 (quick) / 50 (thorough), names from "
+                "sample_mutation_method, with and without clone between steps, and with a twin network receiving "
+                "the applied method with the returned kwargs.  distinct = distinct (subject, chain); non-trivial = a "
+                "fallback fired, a bound stopped the change, or the chain has more than one step")
     chk.assumptions = [
         "numpy draws inside mutation methods go through np.random.randint / np.random.choice (served by a recorded stand-in)",
         "finiteness of outputs and acceptance of weights are checked on the real torch modules only (not modelled)",
@@ -1199,8 +1224,10 @@ def run(chk: Check) -> None:
         heavy = spec["kind"] in ("multi", "net") or spec["kind"].startswith("cnn")
         if quick:
             df, dg, cap = (1, 2, 140) if heavy else (2, 4, 500)
+        elif heavy:
+            df, dg, cap = 2, 3, 1400
         else:
-            df, dg, cap = (2, 4, 700) if heavy else (3, 6, 2500)
+            df, dg, cap = (2, 6, 2500) if spec["id"] == "mlp-noisy-small" else (3, 6, 9000)
         n, d = explore(chk, "explore", spec, policy, df, dg, True, known, cap)
         chk.suite("explore-" + spec["kind"], n, d)
     # walks
@@ -1303,6 +1330,12 @@ def replay(chk: Check, path: str) -> int:
     c = c.get("replay", c)
     policy = c.get("policy", {"forward_head": True, "clamp_kernel": True})
     spec, steps = c["spec"], c["steps"]
+    if c.get("call") == "head_rebuild":
+        bad = rebuild_check(build(spec).head_net)
+        print(json.dumps({"head_rebuild_problems": bad}))
+        if bad:
+            print(f"VIOLATION property=C03 replay={path}")
+        return 1 if bad else 0
     if c.get("call") == "get_output_dense":
         try:
             build(spec).get_output_dense()
